@@ -3,10 +3,12 @@
 mod batch;
 mod checks;
 mod conc;
+mod crash;
 mod exec;
 mod gen;
 mod hist;
 mod lin;
+mod logsim;
 mod plan;
 mod report;
 mod rng;
